@@ -83,3 +83,18 @@ Fixpoint first_bad (p : list instr) (t : tenv) (tainted : bool) (i : nat) : opti
   | IUpdate x y :: r => if is_F (t x) then first_bad r t (tainted || negb (is_F (t y))) (1 + i) else Some i
   | IDel x _ :: r => if is_F (t x) then first_bad r t tainted (1 + i) else Some i
   end.
+
+(* the register typing the checker ends with (write checks ignored): what the discipline predicts about
+   the provenance of each local at the end of a flow *)
+Fixpoint types_after (p : list instr) (t : tenv) (tainted : bool) : tenv * bool :=
+  match p with
+  | [] => (t, tainted)
+  | ILoadRoot x _ :: r => types_after r (upd_t t x S) tainted
+  | IGet x y _ :: r => types_after r (upd_t t x (if is_F (t y) && negb tainted then F else S)) tainted
+  | INew x :: r => types_after r (upd_t t x F) tainted
+  | IDeepCopy x _ :: r => types_after r (upd_t t x F) tainted
+  | ISet x _ y :: r => types_after r t (tainted || negb (is_F (t y)))
+  | ISetAtom _ _ _ :: r => types_after r t tainted
+  | IUpdate x y :: r => types_after r t (tainted || negb (is_F (t y)))
+  | IDel _ _ :: r => types_after r t tainted
+  end.
